@@ -482,6 +482,8 @@ func (idx *MergeSetIndex) putIndexSearch(is *indexSearch) {
 	is.mp.Reset()
 	is.vrp.Reset()
 	is.idx = nil
+	// the pool is shared by all indexes: the deleted set belongs to the index this search served
+	is.deleted = nil
 	is.tfs = is.tfs[:0]
 	indexSearchPool.Put(is)
 }
